@@ -94,8 +94,8 @@ func init() {
 
 func init() {
 	props["C03"] = &PropSpec{
-		Rules:      []string{"path/nilpair", "front/parse-gate", "switch/panic-default", "front/rune-truncation", "front/loop-eof", "effect/selfrec"},
-		Decides:    "one hang mechanism - every path around an unconditional scanning loop of the two lexers passes an end-of-input test that cannot be taken once the input is exhausted - one misclassification mechanism - no rune is truncated to a byte before it is classified - and four crash mechanisms of the front end: (1) a (pointer, bool) result that is nil when the bool is false is dereferenced only where the bool was tested true, at every call site in the module; (2) a tree that came with syntax diagnostics never reaches the checker (the gate under which the node switches may assume well-formed trees); (3) the checker's pattern dispatcher, whose default arm panics, has a case for every pattern node kind except the reviewed ones that cannot reach it; (4) no front-end function is an unconditional self call (unrecoverable stack overflow).",
+		Rules:      []string{"path/nilpair", "front/parse-gate", "switch/panic-default", "front/rune-truncation", "front/loop-eof", "front/recursion-bounded", "effect/selfrec"},
+		Decides:    "one fatal-error mechanism - the recursion of the main parser is bounded: every cycle of the Parser's call graph passes the production that counts the nesting and refuses to go deeper, so no input reaches a Go stack overflow, which nothing can recover - one hang mechanism - every path around an unconditional scanning loop of the two lexers passes an end-of-input test that cannot be taken once the input is exhausted - one misclassification mechanism - no rune is truncated to a byte before it is classified - and four crash mechanisms of the front end: (1) a (pointer, bool) result that is nil when the bool is false is dereferenced only where the bool was tested true, at every call site in the module; (2) a tree that came with syntax diagnostics never reaches the checker (the gate under which the node switches may assume well-formed trees); (3) the checker's pattern dispatcher, whose default arm panics, has a case for every pattern node kind except the reviewed ones that cannot reach it; (4) no front-end function is an unconditional self call (unrecoverable stack overflow).",
 		NotCovered: "termination (a progress measure over run-time token streams), index-out-of-range and nil dereferences whose guard depends on run-time values, the narrow node switches whose operand set is determined by one grammar production (counted in the evidence, not decided), the macro and regex front ends beyond rule 1.",
 	}
 	props["C04"] = &PropSpec{
